@@ -57,7 +57,9 @@ def run_engine(ctx, engine, cases, suite):
         if p is None:
             st["legal_runs"] += 1
             continue
-        if "hist-shared" in c01.classify(d):
+        if "hist-shared" in c01.classify(d) and H[i] == M[i]:
+            # the recorded finding, exactly: the run is the one the model of the (unrepaired) history bookkeeping predicts.
+            # An illegal configuration on such a chart that the model does not predict is a different violation
             st["known"] += 1; ctx.known("hist-shared", ""); continue
         st["violations"] += 1
         if len(ctx.violations) < 3:
